@@ -258,6 +258,121 @@ pub fn run(ctx: &Ctx) -> ! {
             }
         }
     }
+    // purpose-built VALID descriptor sets with unusual content: a message that uses a well-known type
+    // (google.protobuf.Timestamp / Duration) which the set defines itself with non-standard field types, labels or
+    // names; proto2 required / repeated / oneof uses of it. (The bundled fixtures never redefine a well-known type.)
+    {
+        fn varint(mut v: u64, out: &mut Vec<u8>) {
+            while v >= 0x80 {
+                out.push((v as u8 & 0x7f) | 0x80);
+                v >>= 7;
+            }
+            out.push(v as u8);
+        }
+        fn len_field(no: u64, data: &[u8], out: &mut Vec<u8>) {
+            varint(no << 3 | 2, out);
+            varint(data.len() as u64, out);
+            out.extend_from_slice(data);
+        }
+        fn int_field(no: u64, v: u64, out: &mut Vec<u8>) {
+            varint(no << 3, out);
+            varint(v, out);
+        }
+        // FieldDescriptorProto: name=1, number=3, label=4, type=5, type_name=6, oneof_index=9
+        fn field(name: &str, number: u64, label: u64, ty: u64, type_name: Option<&str>, oneof: Option<u64>) -> Vec<u8> {
+            let mut f = vec![];
+            len_field(1, name.as_bytes(), &mut f);
+            int_field(3, number, &mut f);
+            int_field(4, label, &mut f);
+            int_field(5, ty, &mut f);
+            if let Some(t) = type_name {
+                len_field(6, t.as_bytes(), &mut f);
+            }
+            if let Some(o) = oneof {
+                int_field(9, o, &mut f);
+            }
+            f
+        }
+        // DescriptorProto: name=1, field=2, oneof_decl=8
+        fn message(name: &str, fields: &[Vec<u8>], oneofs: &[&str]) -> Vec<u8> {
+            let mut m = vec![];
+            len_field(1, name.as_bytes(), &mut m);
+            for f in fields {
+                len_field(2, f, &mut m);
+            }
+            for o in oneofs {
+                let mut d = vec![];
+                len_field(1, o.as_bytes(), &mut d);
+                len_field(8, &d, &mut m);
+            }
+            m
+        }
+        // FileDescriptorProto: name=1, package=2, dependency=3, message_type=4, syntax=12
+        fn file(name: &str, package: &str, deps: &[&str], messages: &[Vec<u8>], syntax: &str) -> Vec<u8> {
+            let mut f = vec![];
+            len_field(1, name.as_bytes(), &mut f);
+            len_field(2, package.as_bytes(), &mut f);
+            for d in deps {
+                len_field(3, d.as_bytes(), &mut f);
+            }
+            for m in messages {
+                len_field(4, m, &mut f);
+            }
+            len_field(12, syntax.as_bytes(), &mut f);
+            f
+        }
+        let hex = |b: &[u8]| -> String { b.iter().map(|x| format!("{x:02x}")).collect() };
+        // (well-known type, its two field names, standard types)
+        let wkts = [("Timestamp", "seconds", "nanos"), ("Duration", "seconds", "nanos")];
+        let types: [u64; 9] = [3, 5, 9, 1, 13, 4, 8, 12, 17];
+        let mut k = 0;
+        for (wkt, f1, f2) in wkts {
+            for (a, b, n1, n2, label, syntax, shape) in types
+                .iter()
+                .flat_map(|a| types.iter().map(move |b| (*a, *b)))
+                .filter(|(a, b)| (*a, *b) != (3, 5) && (*a == 3 || *b == 5 || a == b))
+                .map(|(a, b)| (a, b, f1, f2, 1u64, "proto3", 0))
+                .chain([(3, 5, "secs", "nanos", 1, "proto3", 0), (3, 5, f1, "nano", 1, "proto3", 0), (3, 5, f1, f2, 3, "proto3", 1), (3, 5, f1, f2, 2, "proto2", 2), (3, 5, f1, f2, 1, "proto3", 3), (3, 3, f1, f2, 2, "proto2", 2)])
+            {
+                k += 1;
+                let wkt_msg = if shape == 1 {
+                    // repeated fields inside the well-known type
+                    message(wkt, &[field(n1, 1, 3, a, None, None), field(n2, 2, 3, b, None, None)], &[])
+                } else {
+                    message(wkt, &[field(n1, 1, label.min(2), a, None, None), field(n2, 2, label.min(2), b, None, None)], &[])
+                };
+                let tn = format!(".google.protobuf.{wkt}");
+                let m = match shape {
+                    1 => message("M", &[field("ts", 1, 3, 11, Some(&tn), None), field("name", 2, 1, 9, None, None)], &[]),
+                    3 => message("M", &[field("ts", 1, 1, 11, Some(&tn), Some(0)), field("name", 2, 1, 9, None, Some(0))], &["pick"]),
+                    _ => message("M", &[field("ts", 1, label.min(2), 11, Some(&tn), None), field("name", 2, 1, 9, None, None)], &[]),
+                };
+                let wkt_file_name = format!("google/protobuf/{}.proto", wkt.to_lowercase());
+                let mut set = vec![];
+                len_field(1, &file(&wkt_file_name, "google.protobuf", &[], &[wkt_msg], syntax), &mut set);
+                len_field(1, &file("t.proto", "t", &[&wkt_file_name], &[m], syntax), &mut set);
+                let fname = format!("wkt{k}.desc");
+                let value = if wkt == "Timestamp" { "\"2021-01-01T00:00:00.5Z\"" } else { "\"3.5s\"" };
+                let source = format!(
+                    ".a, .ae = encode_proto({{\"ts\": {value}, \"name\": \"x\"}}, \"@DIR@/{fname}\", \"t.M\")\n.b, .be = encode_proto({{\"ts\": [{value}], \"name\": \"x\"}}, \"@DIR@/{fname}\", \"t.M\")\n.c, .ce = encode_proto({{\"ts\": t'2021-01-01T00:00:00Z', \"name\": 1}}, \"@DIR@/{fname}\", \"t.M\")\n.d, .de = encode_proto({{\"ts\": {{\"{n1}\": 1, \"{n2}\": 2}}}}, \"@DIR@/{fname}\", \"t.M\")\n.e, .ee = parse_proto(decode_base64!(\"CgQIARACEgF4\"), \"@DIR@/{fname}\", \"t.M\")\n.f, .fe = parse_proto(decode_base64!(\"CgYKAXgSAXkSAXg=\"), \"@DIR@/{fname}\", \"t.M\")\n.\n"
+                );
+                worlds.push(WorldSpec {
+                    id: format!("file-wkt-{k}"),
+                    clock: Some(c14::T0),
+                    coord_hash_seed: 1,
+                    programs: vec![ProgramSpec { source, read_only: vec![], precompile: false, label: format!("F:proto(own {wkt}, types {a}/{b}, shape {shape})") }],
+                    events: vec![EventSpec { value: serde_json::json!({}), metadata: None, secrets: Default::default() }],
+                    nodes: vec![NodeSpec { tz: "UTC".into(), hash_seed: 1, own_clone: false, ref_backing: false, ops: vec![Op::Compile { prog: 0 }, Op::Run { prog: 0, event: 0, fresh_runtime: true, faults: FaultPlan::default(), tag: String::new() }] }],
+                    sched: SchedSpec { policy: Policy::Serial, seed: 0, max_yields: 100_000 },
+                    files: vec![FileState { name: fname, state: FileKind::Bytes { hex: hex(&set) } }],
+                    monitors: vec![],
+                    fresh_threads: false,
+                });
+                *kinds.entry("valid_descriptor_redefining_well_known_type".into()).or_insert(0) += 1;
+                ev.distinct.insert(fnv(format!("wkt|{k}").as_bytes()));
+            }
+        }
+    }
     let file_cases = worlds.len() as u64;
     ev.extra.insert("file_state_cases".into(), serde_json::to_value(&kinds).unwrap());
     ev.extra.insert("file_consumers".into(), serde_json::to_value(CONSUMERS.iter().map(|c| c.name).collect::<Vec<_>>()).unwrap());
